@@ -255,7 +255,7 @@ CONFIG = {
         "partial": "floats: dispatch only (parseF is external)",
     },
     "C12": {
-        "lean_modules": ["Darling.Props.C12"],
+        "lean_modules": ["Darling.Props.C12", "Darling.Props.C12Spec"],
         "streams": [
             {"name": "c12", "n": {"quick": 60000, "thorough": 600000},
              "trivial": lambda case, ans: False},
